@@ -44,6 +44,16 @@ func isFalse(value interface{}) bool {
 	return false
 }
 
+// isNull reports whether a value is JMESPath null: nil or, for user provided
+// Go values, a nil pointer.
+func isNull(v interface{}) bool {
+	if v == nil {
+		return true
+	}
+	rv := reflect.ValueOf(v)
+	return rv.Kind() == reflect.Ptr && rv.IsNil()
+}
+
 // ObjsEqual is a generic object equality check.
 // It will take two arbitrary objects and recursively determine
 // if they are equal.
